@@ -19,9 +19,17 @@ inf = float("inf")
 nan = float("nan")
 
 MAPS = {"inc": lambda v: v + 1, "dbl": lambda v: v * 2, "neg": lambda v: -v,
-        "sq": lambda v: v * v}
+        "sq": lambda v: v * v,
+        # type-agnostic ones, used when items are not numbers
+        "wrap": lambda v: (v,), "ident": lambda v: v,
+        "isnone": lambda v: v is None}
 FILTS = {"odd": lambda v: v % 2 == 1, "even": lambda v: v % 2 == 0,
-         "pos": lambda v: v > 0, "n3": lambda v: v % 3 != 0}
+         "pos": lambda v: v > 0, "n3": lambda v: v % 3 != 0,
+         "notnone": lambda v: v is not None, "truthy": lambda v: bool(v),
+         "all": lambda v: True}
+NUM_MAPS, ANY_MAPS = ["inc", "dbl", "neg", "sq"], ["wrap", "ident", "isnone"]
+NUM_FILTS, ANY_FILTS = ["odd", "even", "pos", "n3"], ["notnone", "truthy", "all"]
+HETERO = [None, None, 0, False, "", "a", (1,), 2.5, (), 0.0, "None", True]
 CTORS = {"list": list, "tuple": tuple, "deque": deque, "set": set}
 SCALARS = [5, 0, 2.5, None, Fraction(1, 3), 1j, True]
 PEEK_LEN = 24   # how much of an endless stream is compared at the end
@@ -194,10 +202,14 @@ class Model(object):
         return ("exc", "IndexError")
       self.new(seq)
       return ("stream",)
-    if name in ("hub_iter", "hub_op", "hub_m"):
+    if name in ("hub_iter", "hub_op", "hub_m", "hub_tee"):
       if x["uses"] == 0:
         return ("exc", "IndexError")
       x["uses"] -= 1
+      if name == "hub_tee":       # tee-ing a hub is one use of it
+        for _ in range(op[2]):
+          self.new(seq)
+        return ("streams", op[2])
       if name == "hub_iter":
         self.new(seq)
       elif name == "hub_op":
@@ -231,6 +243,9 @@ class Real(object):
     for spec in init:
       if spec[0] == "fin":
         self.h.append(Stream(iter(list(spec[1]))))
+      elif any(hasattr(v, "__iter__") for v in spec[1]):
+        # strings / tuples are iterables: Stream("a", "b") would chain them
+        self.h.append(Stream(itertools.cycle(list(spec[1]))))
       elif len(spec[1]) == 1:
         self.h.append(Stream(spec[1][0]))
       else:
@@ -248,7 +263,7 @@ class Real(object):
     want = CTORS[ctor]
     if type(res) is not want:
       return ("wrong-container", type(res).__name__)
-    return ("box", ctor, sorted(res) if ctor == "set" else list(res))
+    return ("box", ctor, sorted(res, key=repr) if ctor == "set" else list(res))
 
   def takelike(self, meth, n, ctor):
     try:
@@ -315,6 +330,11 @@ class Real(object):
             break
       return ("items", out)
     try:
+      if name == "hub_tee":
+        cs = lit.tee(s, op[2])
+        self.h.extend(cs)
+        ok = isinstance(cs, tuple) and all(type(c) is Stream for c in cs)
+        return ("streams", len(cs)) if ok else ("notstreams", repr(cs))
       if name == "hub_copy":
         c = s.copy()
       elif name == "hub_iter":
@@ -344,7 +364,7 @@ class Real(object):
 
 def norm(obs):
   if obs[0] == "box" and obs[1] == "set":
-    return ("box", "set", sorted(set(obs[2])))
+    return ("box", "set", sorted(set(obs[2]), key=repr))
   return obs
 
 
@@ -375,6 +395,33 @@ def period_ok(seq, pid):
 
 
 def rand_op(rng, model):
+  op = rand_op_any(rng, model)
+  if not getattr(model, "hetero", False):
+    return op
+  # items are arbitrary objects: no arithmetic on them
+  if op[0] in ("map", "filter") or (op[0] == "hub_m" and op[2] in ("map",
+                                                                   "filter")):
+    which = op[2] if op[0] != "hub_m" else op[3]
+    isfilter = op[0] == "filter" or (op[0] == "hub_m" and op[2] == "filter")
+    new = rng.choice(ANY_FILTS if isfilter else ANY_MAPS)
+    seq = model.h[op[1]]["seq"]
+    if isfilter and not period_ok(seq, new):
+      new = "all"
+    return (op[0], op[1], new) if op[0] != "hub_m" else (op[0], op[1], op[2],
+                                                         new)
+  if op[0] == "hub_op":
+    return ("hub_iter", op[1])
+  if op[0] == "append" and op[2][0] in ("list", "scalars"):
+    return ("append", op[1], ("list", [rng.choice(HETERO) for _ in op[2][1]]))
+  if op[0] == "hub_m" and op[2] == "append":
+    return (op[0], op[1], op[2], ("list", [rng.choice(HETERO)
+                                           for _ in op[3][1]]))
+  if op[0] == "thub_list":
+    return ("thub_list", [rng.choice(HETERO) for _ in op[1]], op[2])
+  return op
+
+
+def rand_op_any(rng, model):
   streams = model.live("stream")
   hubs = model.live("hub")
   r = rng.random()
@@ -387,8 +434,10 @@ def rand_op(rng, model):
     h = rng.choice(hubs)
     seq = model.h[h]["seq"]
     k = rng.random()
-    if k < 0.3:
+    if k < 0.25:
       return ("hub_iter", h)
+    if k < 0.32:
+      return ("hub_tee", h, rng.randint(1, 3))
     if k < 0.45:
       return ("hub_peek", h, rand_count(rng, seq, True),
               rng.choice(list(CTORS)))
@@ -400,9 +449,9 @@ def rand_op(rng, model):
     if m in ("limit", "skip"):
       return ("hub_m", h, m, rand_count(rng, seq, False))
     if m == "map":
-      return ("hub_m", h, m, rng.choice(list(MAPS)))
+      return ("hub_m", h, m, rng.choice(ANY_MAPS if getattr(model, 'hetero', False) else NUM_MAPS))
     if m == "filter":
-      pid = rng.choice(list(FILTS))
+      pid = rng.choice(ANY_FILTS if getattr(model, 'hetero', False) else NUM_FILTS)
       if not period_ok(seq, pid):
         return ("hub_iter", h)
       return ("hub_m", h, m, pid)
@@ -435,9 +484,9 @@ def rand_op(rng, model):
       return ("append", h, ("h", rng.choice(others)))
     return ("append", h, ("list", []))
   if k < 0.66:
-    return ("map", h, rng.choice(list(MAPS)))
+    return ("map", h, rng.choice(ANY_MAPS if getattr(model, 'hetero', False) else NUM_MAPS))
   if k < 0.72:
-    pid = rng.choice(list(FILTS))
+    pid = rng.choice(ANY_FILTS if getattr(model, 'hetero', False) else NUM_FILTS)
     if period_ok(seq, pid):
       return ("filter", h, pid)
     return ("map", h, "inc")
@@ -452,15 +501,15 @@ def rand_op(rng, model):
   return ("for", h, rng.randint(0, 4))
 
 
-def rand_init(rng):
+def rand_init(rng, hetero=False):
+  item = (lambda: rng.choice(HETERO)) if hetero else (lambda: rng.randint(-9, 9))
   init = []
   for _ in range(rng.randint(1, 3)):
     if rng.random() < 0.65:
-      init.append(("fin", [rng.randint(-9, 9)
+      init.append(("fin", [item()
                            for _ in range(rng.choice([0, 1, 2, 3, 5, 8, 12]))]))
     else:
-      init.append(("per", [rng.randint(-9, 9)
-                           for _ in range(rng.randint(1, 4))]))
+      init.append(("per", [item() for _ in range(rng.randint(1, 4))]))
   return init
 
 
@@ -538,8 +587,10 @@ def cases(ctx):
            "alphabet of small_ops()" % (depth, SMALL_INIT))
   rng = ctx.rng
   for _ in ctx.loop(24000, 1600000):
-    init = rand_init(rng)
+    hetero = rng.random() < 0.25
+    init = rand_init(rng, hetero)
     m = Model(init)
+    m.hetero = hetero
     ops = []
     for _ in range(rng.randint(1, 14)):
       op = rand_op(rng, m)
@@ -650,6 +701,7 @@ def run_case(ctx, case):
 def finish(ctx):
   for op in ["take", "peek", "skip", "limit", "append", "map", "filter", "copy",
              "tee", "thub", "next", "for", "hub_iter", "hub_peek", "hub_copy",
+             "hub_tee",
              "hub_op", "hub_m", "thub_scalar", "thub_list"]:
     ctx.need("op:" + op, 20)
   ctx.need("expected-exc:StopIteration", 5)
